@@ -38,7 +38,7 @@ func verifyInit(w *World, res *CheckResult, pkg string) {
 	res.Functions = append(res.Functions, pkg+".init")
 }
 
-var reValueObl = regexp.MustCompile(`/(value|evaluates|operand-type)$`)
+var reValueObl = regexp.MustCompile(`/(value|evaluates|operand-type|size-nonneg)$`)
 
 // the obligations of C15 among the template value obligations: the places
 // where static types select a specialised instruction
